@@ -51,6 +51,26 @@ pub fn dump_fn<'tcx>(cx: &mut Cx<'tcx>, did: LocalDefId) -> J {
     ])
 }
 
+/// the initialiser of a `const` / `static` item (a named constant that a rule has to look through, e.g. a clip bound)
+pub fn dump_const<'tcx>(cx: &mut Cx<'tcx>, did: LocalDefId) -> J {
+    let tcx = cx.tcx;
+    let body = tcx.hir_body_owned_by(did);
+    let tc = tcx.typeck(did);
+    let env = TypingEnv::post_analysis(tcx, did.to_def_id());
+    let def = cx.def(did.to_def_id());
+    let (file, line) = cx.loc(tcx.def_span(did));
+    let exp = cx.exp_flag(tcx.def_span(did));
+    let mut hd = Hd { cx, tc, env };
+    let value = hd.expr(body.value);
+    o(vec![
+        ("def", def),
+        ("file", J::I(file as i64)),
+        ("line", J::I(line as i64)),
+        ("exp", J::I(exp)),
+        ("body", value),
+    ])
+}
+
 impl<'a, 'tcx> Hd<'a, 'tcx> {
     fn base(&mut self, k: &str, e: &hir::Expr<'tcx>) -> Vec<(&'static str, J)> {
         let mut v = vec![("k", J::S(k.into()))];
